@@ -12,6 +12,7 @@ open Exefs
 open Tmd
 open Ncch
 open NcchFull
+open Romfs
 open Driver_base
 
 let opt f = function None -> "-" | Some x -> f x
@@ -187,6 +188,20 @@ let run_fulldec toks =
     hex_of_bytes (fulldec_read n (z_of_hex off) (z_of_hex size))
   | _ -> failwith "fulldec args"
 
+(* romfs <dirmeta> <filemeta>  ->  tree dump | e:Err *)
+let rec show_node (n : node) : string =
+  match n with
+  | NDir (nm, ch) -> "D" ^ hex_of_bytes nm ^ "(" ^ String.concat ";" (Stdlib.List.map show_node ch) ^ ")"
+  | NFile (nm, o, s) -> "F" ^ hex_of_bytes nm ^ "," ^ hex_of_z o ^ "," ^ hex_of_z s
+
+let run_romfs toks =
+  match toks with
+  | [dm; fm] ->
+    (match walk_bounded (bytes_of_hex dm) (bytes_of_hex fm) with
+     | Ok n -> show_node n
+     | Err e -> "e:" ^ err_name e)
+  | _ -> failwith "romfs args"
+
 let dispatch (line : string) : string =
   match String.split_on_char ' ' (String.trim line) with
   | "engine" :: toks -> run_engine toks
@@ -197,6 +212,7 @@ let dispatch (line : string) : string =
   | "tmd" :: toks -> run_tmd toks
   | "ranges" :: toks -> run_ranges toks
   | "fulldec" :: toks -> run_fulldec toks
+  | "romfs" :: toks -> run_romfs toks
   | e :: _ -> failwith ("unknown entry " ^ e)
   | [] -> ""
 
